@@ -347,15 +347,26 @@ class Undefined(Exception):
 
 class Unlinked(Undefined):
     """the documented rules leave a destination field without a link (required, or optional while the policy
-    forbids skipping): the documentation says no converter exists then"""
+    forbids skipping): the documentation says no converter exists then.
+    `below_same_tagged_hint`: the model pair that cannot be linked is (or lies below) a source / destination pair
+    declared with one and the same *tagged* hint (`Annotated[M, ...]`, `NotRequired[M]`): the call site where the
+    library, instead of refusing, lets SameTypeCoercerProvider pass the whole value as is"""
+
+    def __init__(self, msg, below_same_tagged_hint=False):
+        super().__init__(msg)
+        self.below_same_tagged_hint = below_same_tagged_hint
 
 
 class Spec:
     """Locations are dicts {"kind","ty","field","pos"}; stacks are lists, bottom first (as in adaptix)."""
 
-    def __init__(self, case, universe: Universe):
+    def __init__(self, case, universe: Universe, tagged_as_is=False):
         self.case = case
         self.u = universe
+        # NOT the documented algorithm: with tagged_as_is the transcription passes a model declared with the same
+        # tagged hint on both sides through unchanged. Used only to *name* a failure already established against
+        # the documented algorithm (signature suffix `same-tagged-hint-passed-as-is`), never to accept a result.
+        self.tagged_as_is = tagged_as_is
         self.cls = universe.logical
         self.recipe = case["recipe"]
         self.sig = case["sig"]
@@ -428,6 +439,28 @@ class Spec:
             return not self.pred(p["q"], stack)
         raise ValueError(k)
 
+    # -- type hint tags (Annotated / NotRequired) of a field declaration: invisible to every rule, recorded on
+    #    the locations only to name the call site of a failure -----------------------------------------------
+    @staticmethod
+    def field_tag(cls, f):
+        tags = []
+        if cls["kind"] == "typeddict" and f.get("not_required"):
+            tags.append("NotRequired")
+        if f.get("annotated") is not None and not (cls.get("generic") is not None and f.get("tvar")):
+            tags.append(f"Annotated:{f['annotated']}")
+        return "+".join(tags) or None
+
+    def out_loc(self, cls, f):
+        return {"kind": "out", "ty": f["ty"], "field": f["id"], "tag": self.field_tag(cls, f)}
+
+    @staticmethod
+    def below_same_tagged_hint(src_stack, dst_stack):
+        """some pair of locations the two stacks were extended by together carries the same tagged hint"""
+        for s, d in zip(reversed(src_stack), reversed(dst_stack)):
+            if s.get("tag") is not None and s.get("tag") == d.get("tag") and s["ty"] == d["ty"]:
+                return True
+        return False
+
     # -- linking: which source feeds a destination field -----------------------
     def param_locs(self):
         return [{"kind": "field", "ty": p["ty"], "field": p["name"]} for p in self.extra]
@@ -435,7 +468,7 @@ class Spec:
     def link(self, src_stack, src_cls, dst_field_stack):
         """-> ("field", src_field) | ("param", i) , coercer | ("const", prov) | ("func", prov, args) | None"""
         target = dst_field_stack[-1]["field"]
-        src_fields = [(f, src_stack + [{"kind": "out", "ty": f["ty"], "field": f["id"]}]) for f in src_cls["fields"]]
+        src_fields = [(f, src_stack + [self.out_loc(src_cls, f)]) for f in src_cls["fields"]]
         params = list(enumerate(self.param_locs()))
         for prov in self.recipe:
             k = prov["k"]
@@ -511,6 +544,8 @@ class Spec:
                                               else "truthy-arg")] += 1
             return App(f, [value], [])
         if self.is_model(s) and self.is_model(d):
+            if self.tagged_as_is and self.below_same_tagged_hint(src_stack[-1:], dst_stack[-1:]):
+                return value
             if self.falsy(value):
                 self.stats["val-model:falsy-instance"] += 1
             return self.convert_model(value, src_stack, dst_stack, pvals)
@@ -542,12 +577,12 @@ class Spec:
         out = []
         for f in dst_cls["fields"]:
             in_shape_field = next(x for x in self.u.in_shape(dst_cls)["fields"] if x["id"] == f["id"])
-            dloc = {"kind": "in", "ty": f["ty"], "field": f["id"]}
+            dloc = {"kind": "in", "ty": f["ty"], "field": f["id"], "tag": self.field_tag(dst_cls, f)}
             fstack = dst_stack + [dloc]
             lk = self.link(src_stack, src_cls, fstack)
             if lk is None:
                 if in_shape_field["required"] or not self.unlinked_allowed(fstack):
-                    raise Unlinked(f"{dst_cls['name']}.{f['id']}")
+                    raise Unlinked(f"{dst_cls['name']}.{f['id']}", self.below_same_tagged_hint(src_stack, dst_stack))
                 if in_shape_field["default"] is not None:
                     out.append((f["id"], self.u.from_json(in_shape_field["default"])))
                 continue
@@ -557,7 +592,7 @@ class Spec:
     def source_value(self, lk, data, src_stack, src_cls, pvals):
         if lk[0] == "field":
             f = lk[1]
-            return self.read_field(data, src_cls, f), src_stack + [{"kind": "out", "ty": f["ty"], "field": f["id"]}]
+            return self.read_field(data, src_cls, f), src_stack + [self.out_loc(src_cls, f)]
         i = lk[1]
         return pvals[self.extra[i]["name"]], [self.param_locs()[i]]
 
